@@ -1,8 +1,31 @@
 package h
 
 import (
+	"github.com/xjslang/xjs/lexer"
+	"github.com/xjslang/xjs/parser"
+	"github.com/xjslang/xjs/token"
 	"github.com/xjslang/xjs/zzverif/sym"
 )
+
+// priorJob (parameter prelude=1): an earlier, plugin-configured parser was
+// built and used in the same process - a postfix operator on a built-in binary
+// operator token (multiplicative or relational), alone or with a prefix operator
+// on `*` and an infix operator on `:`. What a default parser does afterwards must not depend
+// on it (the property quantifies over programs, not over process histories).
+func priorJob() {
+	if sym.Param("prelude", 0) != 1 {
+		return
+	}
+	pb := parser.NewBuilder(lexer.NewBuilder())
+	op := []token.Type{token.MODULO, token.LT}[sym.Choose("preludeop", sym.Param("preludeops", 2))]
+	pb.RegisterPostfixOperator(op, mkPostfix)
+	if sym.Choose("preludecfg", sym.Param("preludecfgs", 2)) == 1 {
+		// postfix only, or together with operators of the other two roles
+		pb.RegisterPrefixOperator(token.MULTIPLY, mkPrefix)
+		pb.RegisterInfixOperator(token.COLON, parser.SUM, mkBinary)
+	}
+	pb.Build("a").ParseProgram()
+}
 
 // GenProgram builds a generated program from the harness parameters.
 func GenProgram() (*Gen, *Script) {
@@ -15,6 +38,7 @@ func GenProgram() (*Gen, *Script) {
 // ZZH2Parse: every generated program, in every layout ECMAScript permits,
 // parses without error to exactly the generated tree (C02).
 func ZZH2Parse() {
+	priorJob()
 	g, s := GenProgram()
 	sym.Observe("script", s.Types(), s.Newlines())
 	p := NewParser(s, false, false)
